@@ -530,3 +530,106 @@ def is_forward(cx, fn, callee_suffix, field=0, extra_args=()):
     e = evs[0][1]
     return (e.get('rpath') or e['path']).endswith(callee_suffix) and e['args'][0] == ('ref', (('P', ('param', 1)), (('f', field),))) \
         and list(e['args'][1:]) == list(extra_args) and ps[0]['ret'] == ('ret', evs[0][0])
+
+
+def callers_confined(facts, target, allowed):
+    """who-may-call through private helpers: every caller of `target` must be one of `allowed`, or a private
+    (non-pub) function all of whose own callers are confined in the same way.  Returns (direct callers, offenders)."""
+    edges = {}
+    for b in facts.bodies.values():
+        owner = b.get('root') or b['path']
+        if b['kind'] == 'Closure' and not b.get('root'):
+            owner = b['path'].split('::{closure')[0]
+        for blk in b['blocks']:
+            t = blk['t']
+            if t['k'] == 'call' and t.get('callee'):
+                c = t['callee']
+                p = (c.get('res') or {}).get('path') or c['path']
+                edges.setdefault(p, set()).add(owner)
+    direct = set(edges.get(target, ()))
+    offenders = set()
+    seen = set()
+    work = list(direct)
+    while work:
+        c = work.pop()
+        if c in seen or c in allowed:
+            continue
+        seen.add(c)
+        info = facts.fns.get(c, {})
+        if info.get('pub') is False:
+            work.extend(edges.get(c, ()))
+        else:
+            offenders.add(c)
+    return direct, offenders
+
+
+def confined_helpers(facts, root):
+    """`root` plus the private functions that are reachable only through it: a private function all of whose callers
+    already belong to the set (closures count as their enclosing function)"""
+    callers = {}
+    for b in facts.bodies.values():
+        owner = b.get('root') or b['path']
+        for blk in b['blocks']:
+            t = blk['t']
+            if t['k'] == 'call' and t.get('callee'):
+                c = t['callee']
+                p = (c.get('res') or {}).get('path') or c['path']
+                callers.setdefault(p, set()).add(owner)
+    group = {root}
+    changed = True
+    while changed:
+        changed = False
+        for p, cs in callers.items():
+            if p in group or facts.body(p) is None:
+                continue
+            if facts.fns.get(p, {}).get('pub') is False and cs and cs <= group:
+                group.add(p)
+                changed = True
+    return group
+
+
+def counter_loops(path):
+    """hand-written counting loops traversed by the path, the `while i < n { ..; i += 1 }` spelling of `for _ in lo..n`:
+    list of dicts(header, frame, enter (event index), lo, hi, local, kind) where kind is 'iteration' if this path runs the
+    body once more (the guard i < n held and i + 1 is carried back) and 'exit' if the guard failed.
+    Recognised only when the counter starts at a value known before the loop, is advanced by exactly one on the
+    back edge, and the guard compares the loop-carried counter with a bound that the loop does not assign."""
+    out = []
+    evs = path['events']
+    for k, e in enumerate(evs):
+        if e['kind'] != 'loop-enter':
+            continue
+        hdr, frame = e['header'], e['frame']
+        for local, b in sorted(e['before'].items()):
+            if b[0] == 'phi' or b[0] == 'uninit':
+                continue
+            phis = [t for c, v in cond_facts(path) for t in subterms(c) if t[0] == 'phi' and t[1] == hdr and t[3] == local]
+            if not phis:
+                continue
+            phi = phis[0]
+            guard = None
+            for c, v in cond_facts(path):
+                if v[0] != 'bool' or c[0] != 'op':
+                    continue
+                op, x, y = c[1], c[2], c[3]
+                if op == 'Gt' and y == phi:
+                    op, x, y = 'Lt', y, x
+                if op == 'Ge' and x == phi:        # !(i >= n)
+                    op, x, y, v = 'Lt', x, y, ('bool', not v[1])
+                if op == 'Le' and y == phi:        # !(n <= i)
+                    op, x, y, v = 'Lt', y, x, ('bool', not v[1])
+                if op == 'Lt' and x == phi and not any(t[0] in ('phi', 'phiheap') and t[1] == hdr for t in subterms(y)):
+                    guard = (y, v[1])
+            if guard is None:
+                continue
+            hi, taken = guard
+            if taken:
+                back = [f for f in evs[k + 1:] if f['kind'] == 'loop-back' and f['header'] == hdr and f['frame'] == frame]
+                if not back or back[0]['carried'].get(local) not in (('op', 'Add', phi, ('int', 1, b[2] if len(b) > 2 else 'usize')), ('op', 'Add', ('int', 1, b[2] if len(b) > 2 else 'usize'), phi)):
+                    continue
+                if path['end'] != ('back', hdr, frame):
+                    continue
+                out.append({'header': hdr, 'frame': frame, 'enter': k, 'lo': b, 'hi': hi, 'local': local, 'kind': 'iteration'})
+            else:
+                out.append({'header': hdr, 'frame': frame, 'enter': k, 'lo': b, 'hi': hi, 'local': local, 'kind': 'exit'})
+    return out
